@@ -35,7 +35,8 @@ namespace sw { namespace universal {
 	inline void convert_p2i(const posit<nbits, es>& p, integer<ibits, BlockType, NumberType>& v) {
 		// get the scale of the posit value
 		int _scale = scale(p);
-		if (_scale < 0) {
+		// zero and NaR have no scale: the scale of their bit patterns is negative only when nbits > 2
+		if (p.iszero() || p.isnar() || _scale < 0) {
 			v = 0;
 			return;
 		}
